@@ -590,6 +590,33 @@ def replay_paths(chk, bindir, bind, g, paths, progs, tag):
     return runs, divs, ords, agreed_steps
 
 
+def replay_resync(chk, bindir, bind, g, path, progs, tag, max_insert=16):
+    """Directed replay of ONE model path into code that may split a model action into several
+    operations (or merge two): whenever the wanted step is not enabled, one more plain grant of that
+    thread is inserted in front of it and the run is repeated.  Every attempt is a real execution
+    (all are returned for judging); the last one followed the path as far as the code allows."""
+    sched = [bind.step(g, g.edges[ei]) for ei in path]
+    out = []
+    for attempt in range(max_insert + 1):
+        plans = os.path.join(chk.work, "plans_%s.ndjson" % tag)
+        with open(plans, "w") as f:
+            f.write(json.dumps({"run": attempt, "kind": bind.kind, "progs": progs, "sched": sched, "snap": True}, separators=(",", ":")) + "\n")
+        runs, _ = run_sched(bindir, "replay", plans)
+        out += runs
+        d = runs[0]["end"].get("diverged")
+        if not d:
+            break
+        k = d["k"]
+        if k >= len(sched):
+            break
+        # the extra operation belongs to the thread's PREVIOUS model step (an action split in two): keep
+        # the halves adjacent, i.e. insert right behind that thread's last step before k
+        t = sched[k][0]
+        j = max([i for i in range(k) if sched[i][0] == t], default=k - 1)
+        sched = sched[:j + 1] + [[t]] + sched[j + 1:]
+    return out, len(sched) - len(path), not out[-1]["end"].get("diverged")
+
+
 def dump_graph(chk, module, cfg, tag, workers=8, timeout=900, cwd=core.SPECS, check=True):
     dot = os.path.join(chk.work, "graph_%s.dot" % tag)
     if os.path.exists(dot):
@@ -861,7 +888,7 @@ class LockCheck:
         return run_sched(bindir, mode, path, timeout=3000)
 
     def run(self, tier, tours, configs, configs_if_differs, specs, tour_budget=None, stress=None, rare_tours=(),
-            release_specs=(), probe_scenarios=()):
+            release_specs=(), probe_scenarios=(), directed=()):
         chk = core.Check(self.pid, tier, "model_checking")
         bindir = core.cargo_build(bins=["sched"])
         all_ords, drift, tour_stats = {}, [], []
@@ -1021,6 +1048,30 @@ class LockCheck:
             if runs:
                 chk.sample({"source": tag, "progs": spec["progs"], "sched": runs[-1]["end"]["sched"]})
 
+        # 4''. directed schedules from a deliberately WRONG variant of the model: an abstraction the model
+        #      makes (e.g. NotifyDistinct: writer_notify is a counter) is replaced by the implementation
+        #      it excludes (a toggle); TLC's counterexample of that variant is the schedule on which a real
+        #      implementation of that kind loses a wake-up.  Replayed (resynchronising) into the real
+        #      code; on code that honours the abstraction the replay simply diverges (expected, not drift).
+        for name, n, progs, budgets, override, what in directed:
+            cfg = self.write_cfg(chk, name, n, progs, budgets, invariants=False, liveness=False)
+            with open(cfg) as f:
+                txt = f.read().replace("SPECIFICATION Spec", "  %s\nSPECIFICATION Spec" % override)
+            with open(cfg, "w") as f:
+                f.write(txt)
+            res, g = dump_graph(chk, "%s_MC.tla" % self.prefix, cfg, "%s_dir_%s" % (self.lock, name))
+            chk.add_tlc(res)
+            p = shortest_path_to(g, lambda nid: self.bad_state(g.state(nid)))
+            info = {"variant": override, "what": what, "config": name, "states": res.distinct,
+                    "counterexample_length": len(p) if p else None}
+            if p:
+                runs, inserted, followed = replay_resync(chk, bindir, self.bind, g, p, self.PROGS[progs], "%s_dir_%s" % (self.lock, name))
+                info.update({"actions": [g.edges[e][2] for e in p], "attempts": len(runs), "grants_inserted": inserted,
+                             "real_code_followed_to_the_end": followed})
+                core.log("directed %s (%s): counterexample of %d steps, %d attempts, followed to the end: %s" % (name, override, len(p), len(runs), followed))
+                judge_and_report(runs, "dir_" + name, "D1 directed schedule from %s_MC %s with %s" % (self.prefix, name, override))
+            chk.extra.setdefault("directed_from_model_variants", []).append(info)
+
         # 4a. the same real code built WITHOUT debug assertions / overflow checks (profile release): the
         #     first tour again, step by step, selected explorations, a short stress.  Code that only
         #     exists in one profile (debug_assert!(side effect), cfg(debug_assertions)) shows here.
@@ -1060,7 +1111,7 @@ class LockCheck:
         #     of the algorithm-level specification (<Prefix>Trace.tla); what the model cannot follow is drift
         t0 = time.time()
         # (the tour replays were already compared step by step by B1 and are left out here)
-        sel = [r for r in pending if not r["source"].startswith(("B1 ", "P1 ", "S0 "))]
+        sel = [r for r in pending if not r["source"].startswith(("B1 ", "P1 ", "S0 ", "D1 "))]
         tot = sum(len(r["events"]) + 1 for r in sel)
         cap = 150000 if tier == "quick" else 1200000
         if tot > cap:
